@@ -17,9 +17,9 @@ def sh(cmd, cwd=None, env=None, timeout=1800):
     return p.returncode, p.stdout + p.stderr
 
 
-def confirm(prop, k):
-    src = "/tmp/seed-%s/%s" % (prop, k)
-    wt = "/tmp/wt-%s" % prop
+def confirm(prop, k, src=None, wt=None):
+    src = src or "/tmp/seed-%s/%s" % (prop, k)
+    wt = wt or "/tmp/wt-%s" % prop
     sid = "%s-%s" % (prop, k)
     rec = {"id": sid, "property": prop, "source": "independent sub-agent given only the property text and a scratch worktree"}
     sh(["git", "checkout", "--", "."], cwd=wt)
@@ -92,7 +92,11 @@ def check(sid):
 
 
 if __name__ == "__main__":
-    if sys.argv[1] == "confirm":
+    if sys.argv[1] == "confirm2":
+        # confirm2 <srcdir> <worktree> <prop> <k>
+        r = confirm(sys.argv[4], sys.argv[5], src=sys.argv[2], wt=sys.argv[3])
+        print(r["id"], "confirmed" if r["confirmed"] else "REJECTED", r.get("tests_with_change"), r.get("demo_exit_without_change"), r.get("demo_exit_with_change"), r.get("why", ""))
+    elif sys.argv[1] == "confirm":
         for k in sys.argv[3:]:
             r = confirm(sys.argv[2], k)
             print(r["id"], "confirmed" if r["confirmed"] else "REJECTED", r.get("tests_with_change"), r.get("demo_exit_without_change"), r.get("demo_exit_with_change"), r.get("why", ""))
